@@ -18,8 +18,8 @@ use std::collections::BTreeMap;
 #[derive(Clone, Debug, Serialize, Deserialize, PartialEq)]
 pub struct RulesTrace {}
 
-const UNIVERSE: &[&str] = &[".hidden", "src/.cfg", "foo", "bar", "baz", "src/a", "src/b", "src/x/c", "src/foo", "out/a", "out/b", "out/foo", "dst/a", "dst/foo", "a.c", "b.h", "x/y/z"];
-const PATTERNS: &[&str] = &["*", "foo", "bar", "src/*", "*.c", "src/a", "?ar", "[fb]oo", "[!f]oo", "out/*", "nothing", "a.c", "src/x/*", "dst/*", "a", "b", "*/a", "ba?", "x/y/z", "[a-c].[ch]", "~*", "src/?bersicht", "*/~*"];
+const UNIVERSE: &[&str] = &[".hidden", "src/.cfg", "foo", "bar", "baz", "src/a", "src/b", "src/x/c", "src/foo", "out/a", "out/b", "out/foo", "dst/a", "dst/foo", "a.c", "b.h", "x/y/z", "Foo", "FOO", "src/A", "A.C", "out/Foo"];
+const PATTERNS: &[&str] = &["*", "foo", "bar", "src/*", "*.c", "src/a", "?ar", "[fb]oo", "[!f]oo", "out/*", "nothing", "a.c", "src/x/*", "dst/*", "a", "b", "*/a", "ba?", "x/y/z", "[a-c].[ch]", "~*", "src/?bersicht", "*/~*", "Foo", "F*", "src/A", "*.C"];
 const PREFIXES: &[&str] = &["src", "out", "dst", "src/x", "x/y", "nowhere", "src.d", "src-x"];
 /// names whose bytes sort in unusual places relative to the prefixes (before `/`, after `~`, beyond ASCII)
 const ODD_NAMES: &[&str] = &["src/~lock", "src/übersicht", "out/~", "dst/é", "~", "ünï", "src0", "src.d/a", "src-x/a", "out/a b", "src/~", "dst/~foo", "out/ünï"];
@@ -51,7 +51,7 @@ fn rule(r: &mut Rng, names: &[String]) -> Rule {
         4 => vec!["REQUIRE".into(), pick_name(r).to_string()],
         5 => vec!["DISALLOW".into(), if r.chance(1, 12) { r.pick(&["[", "a**b", "**a", "[!"]).to_string() } else { pat }],
         _ => {
-            let mut v: Rule = vec!["MATCH".into(), r.pick(&["*", "a", "foo", "b", "?", "*.c", "x/c", "c", "z"]).to_string()];
+            let mut v: Rule = vec!["MATCH".into(), r.pick(&["*", "a", "foo", "b", "?", "*.c", "x/c", "c", "z", "Foo", "A", "f*"]).to_string()];
             if r.chance(1, 2) {
                 v.push("IN".into());
                 v.push(r.pick(PREFIXES).to_string());
@@ -246,8 +246,8 @@ pub fn gen_rules_world(seed: u64) -> SupplyTrace {
     let mut work_files: Vec<(String, String)> = vec![];
     if r.chance(1, 3) {
         let last = root.layout.steps.last().map(|s| s.name.clone()).unwrap_or_default();
-        let names_pool = ["foo", "bar", "baz", "a.c", "b.h", "extra", "report"];
-        for n in names_pool.iter().take(2 + r.idx(4)) {
+        let names_pool = ["foo", "bar", "baz", "a.c", "b.h", "extra", "report", "insp.link", "inspect-final.link"];
+        for n in names_pool.iter().take(2 + r.idx(6)) {
             work_files.push((n.to_string(), format!("content-{}", r.below(4))));
         }
         // make some of them equal to the last step's products: rewrite that step's product digests to
@@ -283,7 +283,7 @@ pub fn gen_rules_world(seed: u64) -> SupplyTrace {
         });
         labels.push("INSPECTION".into());
     }
-    SupplyTrace { keys, root, caller: vec![(0, 0)], clock: vec![(now, 0)], hash_seeds: vec![r.next()], arrivals: vec![r.next()], file_faults: vec![], labels, work_files, caller_json_alias: vec![], step_name: None, rel_link_dir: false, read_faults: None, fixed_mtime: false, link_dir_style: 0, work_links: vec![], tz: None }
+    SupplyTrace { keys, root, caller: vec![(0, 0)], clock: vec![(now, 0)], hash_seeds: vec![r.next()], arrivals: vec![r.next()], file_faults: vec![], labels, work_files, caller_json_alias: vec![], step_name: None, rel_link_dir: false, read_faults: None, fixed_mtime: false, link_dir_style: 0, work_links: vec![], tz: None, same_thread: gen::same_thread_block(seed), via_symlink: None, mem_sigdup: vec![], in_place: false }
 }
 
 pub fn run_c03(_tier: Tier, seed: u64, index: u64, scratch: &Scratch, rec: &mut RunRecord) {
